@@ -122,8 +122,9 @@ Fixpoint expand (u : universe) (fuel : nat) (todo acc : list string) : gres (lis
     end
   end.
 
-Definition closure (u : universe) (S : list string) : gres (list string) :=
-  gbind (expand u (length u) S []) (fun r => GOk (sort_names u r)).
+(* fuel: at most length u names can be added; one more step reaches an unknown name (KeyError) *)
+Definition closure (u : universe) (l : list string) : gres (list string) :=
+  gbind (expand u (S (length u)) l []) (fun r => GOk (sort_names u r)).
 
 (* ---- the parts of a group ---- *)
 Definition implied_by_member (u : universe) (ns : list string) (d : string) : bool :=
@@ -187,8 +188,8 @@ Definition group_of_names (u : universe) (ns : list string) : group :=
      gskypix := skypix_of u ns;
      glookup := lookup_order u (required_of u ns) (elements_of u ns) |}.
 
-Definition mkgroup (u : universe) (S : list string) : gres group :=
-  gbind (closure u S) (fun ns => GOk (group_of_names u ns)).
+Definition mkgroup (u : universe) (l : list string) : gres group :=
+  gbind (closure u l) (fun ns => GOk (group_of_names u ns)).
 
 Definition conform_str (u : universe) (n : string) : gres group :=
   match find_elem u n with Some e => mkgroup u (deps e) | None => GKeyError end.
